@@ -112,10 +112,40 @@ class TNOps(TNCtor):
         f = cplx(op.get('factor', 2.0))
 
         def own(j):
-            if not r.A[j].flags.writeable or not r.A[j].flags.owndata:
+            # in-place edits stay in place whenever the array can be written to (views included)
+            if not r.A[j].flags.writeable:
                 r.A[j] = np.array(r.A[j])
         if what == 'scale':
             r.A[i] = r.A[i] * f
+        elif what == 'scale_inplace':
+            own(i)
+            if isinstance(f, complex) and not np.iscomplexobj(r.A[i]):
+                f = 2.0
+            if np.issubdtype(r.A[i].dtype, np.integer):
+                f = 2
+            r.A[i] *= f
+        elif what == 'local_op_inplace':
+            # apply a random diagonal (charge conserving) local operator in place
+            own(i)
+            dgl = g.uniform(0.5, 1.5, size=r.A[i].shape[0])
+            if np.issubdtype(r.A[i].dtype, np.integer):
+                return 'skipped'
+            if o.kind == 'mps':
+                r.A[i][...] = r.A[i] * dgl[:, None, None]
+            else:
+                r.A[i][...] = r.A[i] * dgl[:, None, None, None]
+        elif what == 'unbalance':
+            # same object, extremely unbalanced tensors (exact powers of two)
+            if n < 2 or np.issubdtype(r.A[0].dtype, np.integer) or np.issubdtype(r.A[-1].dtype, np.integer):
+                return 'skipped'
+            r.A[0] = r.A[0] * 2.0 ** -60
+            r.A[-1] = r.A[-1] * 2.0 ** 60
+        elif what == 'tiny':
+            for j in range(n):
+                if np.issubdtype(r.A[j].dtype, np.integer):
+                    return 'skipped'
+            for j in range(n):
+                r.A[j] = r.A[j] * 2.0 ** -20
         elif what in ('clamp', 'product'):
             D = 1 if what == 'product' else int(g.integers(1, 3))
             for j in range(n):
@@ -129,7 +159,7 @@ class TNOps(TNCtor):
         elif what in ('bonddiag', 'staircase'):
             Dr = r.A[i].shape[bax]
             if what == 'staircase':
-                dg = 2.0 ** (-np.arange(Dr))
+                dg = 2.0 ** (-float(op.get('step', 1)) * np.arange(Dr))
             else:
                 dg = g.uniform(0.1, 2.0, size=Dr)
             r.A[i] = r.A[i] * dg
@@ -198,6 +228,16 @@ class TNOps(TNCtor):
             if cands:
                 tol = float(cands[int(op.get('tolscale', 0) * len(cands)) % len(cands)])
                 self.probe('compress_tol_at_cumulative_weight')
+        elif op.get('between') and L >= 2:
+            # tolerance strictly between two consecutive cumulative weights (a cut inside a group of tied values included)
+            dl = self.d if mode == 'left' else self.d ** (L - 1)
+            s = dn.schmidt_values(v / nv, dl)
+            w = np.sort((s / np.linalg.norm(s)) ** 2)
+            cum = np.cumsum(w)
+            mids = [0.5 * (a + b) for a, b in zip(cum[:-1], cum[1:]) if b - a > 1e-6 and 0 < 0.5 * (a + b) * L < 1]
+            if mids:
+                tol = float(mids[int(op.get('tolscale', 0) * len(mids)) % len(mids)])
+                self.probe('compress_tol_between_cumulative_weights')
         bd0 = bond_dims(o.ref, 'mps')
         q0 = (o.ref.qD[0][0], o.ref.qD[-1][0]) if dn.is_int_1d_array(o.ref.qD[0]) and dn.is_int_1d_array(o.ref.qD[-1]) else None
         st, res = self.guarded(op, lambda: o.ref.compress(tol, mode=mode), targets=(o,), owners=('C13',))
@@ -268,6 +308,18 @@ class TNOps(TNCtor):
         v0 = o.dense.copy()
         sc0 = o.scale
         self.last_split = None
+        if (op.get('between') or op.get('exact_tie')) and tol > 0 and float(np.linalg.norm(v0)) > 1e-6 * sc0:
+            s_ = dn.schmidt_values(v0 / np.linalg.norm(v0), self.d ** (i + 1))
+            w_ = np.sort((s_ / np.linalg.norm(s_)) ** 2)
+            cum = np.cumsum(w_)
+            if op.get('between'):
+                cands = [0.5 * (a + b) for a, b in zip(cum[:-1], cum[1:]) if b - a > 1e-6]
+            else:
+                cands = [c for c in cum[:-1] if c > 0]
+            cands = [c for c in cands if 0 < c < 1]
+            if cands:
+                tol = float(cands[int(op.get('tolscale', 0) * len(cands)) % len(cands)])
+                self.probe('split_tol_from_spectrum')
 
         def fn():
             Am = ptn.merge_mps_tensor_pair(r.A[i], r.A[i + 1])
@@ -386,6 +438,13 @@ class TNOps(TNCtor):
     def _read(self, op, operands, fn, owners):
         return self.guarded(op, fn, operands=operands, owners=owners, c02_listed=False)
 
+    def int_operand(self, *objs):
+        """C04 quantifies over real / complex entries: integer tensors (silent int64 wrap-around) are outside it."""
+        if any(np.issubdtype(a.dtype, np.integer) for o in objs for a in o.ref.A):
+            self.skip('c04_integer_entries_outside_domain')
+            return True
+        return False
+
     def op_as_vector(self, op):
         o = self.pick(op['sel'], 'mps')
         if o is None:
@@ -431,7 +490,7 @@ class TNOps(TNCtor):
     def op_vdot(self, op):
         a = self.pick(op['a'], 'mps')
         b = self.pick(op['b'], 'mps')
-        if a is None or b is None:
+        if a is None or b is None or self.int_operand(a, b):
             return 'skipped'
         st, x = self._read(op, (a, b), lambda: self.ptn.vdot(a.ref, b.ref), ('C04',))
         if st != 'ok':
@@ -441,7 +500,7 @@ class TNOps(TNCtor):
 
     def op_norm(self, op):
         a = self.pick(op['sel'], 'mps')
-        if a is None:
+        if a is None or self.int_operand(a):
             return 'skipped'
         st, x = self._read(op, (a,), lambda: self.ptn.norm(a.ref), ('C04',))
         if st != 'ok':
@@ -458,7 +517,7 @@ class TNOps(TNCtor):
         if psi is None:
             return 'skipped'
         H = self.pick(op['H'], 'mpo')
-        if H is None:
+        if H is None or self.int_operand(psi, H):
             return 'skipped'
         st, x = self._read(op, (psi, H), lambda: self.ptn.operator_average(psi.ref, H.ref), ('C04',))
         if st != 'ok':
@@ -470,7 +529,7 @@ class TNOps(TNCtor):
         chi = self.pick(op['chi'], 'mps')
         psi = self.pick(op['psi'], 'mps')
         H = self.pick(op['H'], 'mpo')
-        if chi is None or psi is None or H is None:
+        if chi is None or psi is None or H is None or self.int_operand(chi, psi, H):
             return 'skipped'
         st, x = self._read(op, (chi, psi, H), lambda: self.ptn.operator_inner_product(chi.ref, H.ref, psi.ref), ('C04',))
         if st != 'ok':
@@ -481,7 +540,7 @@ class TNOps(TNCtor):
     def op_op_density(self, op):
         a = self.pick(op['a'], 'mpo')
         b = self.pick(op['b'], 'mpo')
-        if a is None or b is None:
+        if a is None or b is None or self.int_operand(a, b):
             return 'skipped'
         st, x = self._read(op, (a, b), lambda: self.ptn.operator_density_average(a.ref, b.ref), ('C04',))
         if st != 'ok':
@@ -495,7 +554,7 @@ class TNOps(TNCtor):
         if psi is None:
             return 'skipped'
         H = self.pick(op['H'], 'mpo')
-        if H is None:
+        if H is None or self.int_operand(psi, H):
             return 'skipped'
         A = psi.ref.A
         W = H.ref.A
